@@ -1,11 +1,17 @@
 /-
   Line protocol shared by the C09 and C10 drivers (same requests as harness/c09_read.cc).
 
-    csv  <delim> <hdr> <trim> <oidx> <filter> <hexbytes> [D <n> {<hexstr> <isnum> <d..|x> <i..|x>}]
-    xrff <filter> <doc tokens …> [D …]            (doc tokens = answer of the harness' `xdoc`)
+    csv  <delim> <hdr> <trim> <oidx> <hook> <hexbytes> [D <n> {<hexstr> <isnum> <d..|x> <i..|x>}]
+    csv2 <delim> <hdr> <trim> <keep> <oidx> <hook> <hexbytes> [D …]     (+ dialect.quoting)
+    xrff <hook> <doc tokens …> [D …]              (doc tokens = answer of the harness' `xdoc`)
+    xrff2 <hook> <doc tokens …> [D …]             (the harness' `xrff2` also sets dialect / output_index,
+                                                   which `read_xrff` must ignore: they are not in the model)
     parse <delim> <trim> <keep> <hexbytes>
     sniff <hexbytes> [D …]
+    file <hexext> <delim> <hdr> <trim> <keep> <oidx> <hook> <hexbytes> X <doc tokens …> [D …]
     var  <delim> <hdr> <trim> <oidx> <typing> <hexbytes> [D …]
+    var2 csv <delim> <hdr> <trim> <keep> <oidx> <hook> <typing> <data|ctor> <hexbytes> [D …]
+    var2 xrff <hook> <typing> <doc tokens …> [D …]
     old  csv|xrff …                               the same with `guards := false` (code before the fixes)
 
   Numbers: the model is parametric in `is_number` / `stod` / `stoi`.  The driver receives their
@@ -107,21 +113,67 @@ def errStr : Err → String
   | .exc k => "exc " ++ excName k
   | .fault s => "fault " ++ siteName s
 
-def makeFilter (spec : String) : Option (List Str → Bool) :=
-  if spec == "0" then some (fun _ => true)
-  else match spec.splitOn "_" with
-    | [m, k] => do
-      let m ← m.toNat?
-      let k ← k.toNat?
-      some (fun r => (r.length + (r.map (fun f => (f.map Char.toNat).sum)).sum) % m != k)
-    | _ => none
+/-! hooks (the same little language as `make_filter` of harness/c09_read.cc): primitives joined by `+`,
+    applied in order, the first one that rejects the record rejects it
 
-def makeParams (delim hdr trim oidx : String) : Option Params := do
+      0            no hook                      <m>_<k> / s<m>_<k>   keep iff (#fields + Σ bytes) % m ≠ k
+      w<m>_<k>     keep iff (Σ_i (i+1)·(1 + Σ bytes of field i)) % m ≠ k        (position dependent)
+      c<j>_<m>_<k> keep iff there is no field j or (Σ bytes of field j + its length) % m ≠ k
+      U<j>         field j (if any) in upper case   X<i>_<j>  fields i and j (if both exist) swapped -/
+
+def sumBytes (f : Str) : Nat := (f.map Char.toNat).sum
+
+def upperChar (c : Char) : Char := if 'a' ≤ c && c ≤ 'z' then Char.ofNat (c.toNat - 32) else c
+
+def nats (s : String) : Option (List Nat) := (s.splitOn "_").mapM String.toNat?
+
+def primHook (spec : String) : Option Hook :=
+  match spec.toList with
+  | [] => none
+  | c :: rest =>
+    let body := String.ofList rest
+    if spec == "0" then some some
+    else if c.isDigit || c == 's' then
+      match nats (if c == 's' then body else spec) with
+      | some [m, k] => if m = 0 then none else
+        some (fun r => if (r.length + (r.map sumBytes).sum) % m != k then some r else none)
+      | _ => none
+    else if c == 'w' then
+      match nats body with
+      | some [m, k] => if m = 0 then none else
+        some (fun r => if ((r.zipIdx 1).map (fun p => p.2 * (1 + sumBytes p.1))).sum % m != k then some r else none)
+      | _ => none
+    else if c == 'c' then
+      match nats body with
+      | some [j, m, k] => if m = 0 then none else
+        some (fun r => match r[j]? with
+          | none => some r
+          | some f => if (sumBytes f + f.length) % m != k then some r else none)
+      | _ => none
+    else if c == 'U' then
+      match nats body with
+      | some [j] => some (fun r => match r[j]? with
+          | none => some r
+          | some f => some (r.set j (f.map upperChar)))
+      | _ => none
+    else if c == 'X' then
+      match nats body with
+      | some [i, j] => some (fun r => match r[i]?, r[j]? with
+          | some a, some b => some ((r.set i b).set j a)
+          | _, _ => some r)
+      | _ => none
+    else none
+
+def makeHook (spec : String) : Option Hook := do
+  let prims ← (spec.splitOn "+").mapM primHook
+  some (fun r => prims.foldlM (fun r h => h r) r)
+
+def makeParams (delim hdr trim keep oidx : String) : Option Params := do
   let d ← delim.toNat?
   let h ← hdr.toInt?
   let o ← oidx.toInt?
   some { delim := Char.ofNat d, header := if h < 0 then none else some (h != 0),
-         trimWs := trim == "1", outIdx := if o < 0 then none else some o.toNat }
+         trimWs := trim == "1", keepQuotes := keep == "1", outIdx := if o < 0 then none else some o.toNat }
 
 /-- every string the model may hand to `isNum` / `stod` / `stoi` for this input: the trimmed
     fields of every record under the delimiters in play, with quotes removed and kept -/
@@ -131,7 +183,8 @@ def csvCells (p : Params) (lines : List Str) : List Str :=
   let fields := ds.flatMap (fun d =>
     nb.flatMap (fun l => parseLine { delim := d, trimWs := p.trimWs } l ++
                          parseLine { delim := d, keepQuotes := true } l ++
-                         parseLine { delim := d } l))
+                         parseLine { delim := d } l) ++
+    (records { delim := d, trimWs := p.trimWs, keepQuotes := p.keepQuotes } p.hook lines).flatMap id)
   (fields.map trim).eraseDups
 
 def missing (d : Dict) (cells : List Str) : List Str := cells.filter (fun c => !d.contains c)
@@ -182,37 +235,57 @@ def parseDoc : List String → Option XDoc
     | _ => none
   | _ => none
 
-def docCells : XDoc → List Str
-  | .doc _ (some insts) => (insts.flatMap (fun r => r.map trim)).eraseDups
+def docCells (hook : Hook) : XDoc → List Str
+  | .doc _ (some insts) => ((insts ++ insts.filterMap hook).flatMap (fun r => r.map trim)).eraseDups
   | _ => []
+
+def answerCsvP (cfg : Cfg) (p : Option Params) (filt bytes : String) (dict : Dict) : String :=
+  match p, makeHook filt, unhex bytes with
+  | some p, some f, some b =>
+    let p := { p with hook := f }
+    let ms := missing dict (csvCells p (splitLines b))
+    if !ms.isEmpty then needStr ms
+    else match readCsv cfg (oracle dict) p b with
+      | .ok df => dump df df.examples.length true
+      | .error e => errStr e
+  | _, _, _ => "bad-op"
 
 def answerCsv (cfg : Cfg) (main : List String) (dict : Dict) : String :=
   match main with
-  | [delim, hdr, trim, oidx, filt, bytes] =>
-    match makeParams delim hdr trim oidx, makeFilter filt, unhex bytes with
-    | some p, some f, some b =>
-      let p := { p with filter := f }
-      let ms := missing dict (csvCells p (splitLines b))
-      if !ms.isEmpty then needStr ms
-      else match readCsv cfg (oracle dict) p b with
-        | .ok df => dump df df.examples.length true
-        | .error e => errStr e
-    | _, _, _ => "bad-op"
+  | [delim, hdr, trim, oidx, filt, bytes] => answerCsvP cfg (makeParams delim hdr trim "0" oidx) filt bytes dict
+  | [delim, hdr, trim, keep, oidx, filt, bytes] => answerCsvP cfg (makeParams delim hdr trim keep oidx) filt bytes dict
   | _ => "bad-op"
 
 def answerXrff (cfg : Cfg) (main : List String) (dict : Dict) : String :=
   match main with
   | filt :: docToks =>
-    match makeFilter filt, parseDoc docToks with
+    match makeHook filt, parseDoc docToks with
     | some f, some doc =>
-      let ms := missing dict (docCells doc)
+      let ms := missing dict (docCells f doc)
       if !ms.isEmpty then needStr ms
-      else match readXrff cfg (oracle dict) f doc with
+      else match readXrffH cfg (oracle dict) f doc with
         | .ok (df, ret) =>
           let valid := match isValid df with | .ok v => v | .error _ => false
           dump df ret valid
         | .error e => errStr e
     | _, _ => "bad-op"
+  | _ => "bad-op"
+
+/-- `file <hexext> <delim> <hdr> <trim> <keep> <oidx> <hook> <hexbytes> X <doc tokens>` -/
+def answerFile (cfg : Cfg) (main : List String) (dict : Dict) : String :=
+  match main with
+  | ext :: delim :: hdr :: trim :: keep :: oidx :: filt :: bytes :: "X" :: docToks =>
+    match unhex ext, makeParams delim hdr trim keep oidx, makeHook filt, unhex bytes, parseDoc docToks with
+    | some e, some p, some f, some b, some doc =>
+      let p := { p with hook := f }
+      let ms := missing dict (if isXrffExt e then docCells f doc else csvCells p (splitLines b))
+      if !ms.isEmpty then needStr ms
+      else match readFile cfg (oracle dict) p e b doc with
+        | .ok (df, ret) =>
+          let valid := match isValid df with | .ok v => v | .error _ => false
+          dump df ret valid
+        | .error e => errStr e
+    | _, _, _, _, _ => "bad-op"
   | _ => "bad-op"
 
 def recsStr (rs : List (List Str)) : String :=
@@ -221,7 +294,7 @@ def recsStr (rs : List (List Str)) : String :=
 def answerVar (main : List String) (dict : Dict) : String :=
   match main with
   | [delim, hdr, trim, oidx, typing, bytes] =>
-    match makeParams delim hdr trim oidx, unhex bytes with
+    match makeParams delim hdr trim "0" oidx, unhex bytes with
     | some p, some b =>
       let ms := missing dict (csvCells p (splitLines b))
       if !ms.isEmpty then needStr ms
@@ -242,6 +315,56 @@ def answerVar (main : List String) (dict : Dict) : String :=
     | _, _ => "bad-op"
   | _ => "bad-op"
 
+/-- `ok S n {v name cat rows {asked value} | k name cat value} P categories variables classes C n {name dom nstates}` -/
+def symsStr (df : DF Nat) (syms : List TermSym) : M String := do
+  let parts ← syms.mapM (fun s => match s with
+    | .var v => do
+      let vals ← (df.examples.take 3).mapM (fun e => do
+        let x ← evalVar v e
+        pure s!" {v.var} {valStr x}")
+      let cat := match v.category with | some c => toString c | none => "u"
+      pure (s!" v {hex v.name} {cat} {vals.length}" ++ String.join vals)
+    | .const name val c =>
+      let cat := match c with | some c => toString c | none => "u"
+      pure s!" k {hex name} {cat} s{hex val}")
+  let nvars := match df.examples with | [] => 0 | e :: _ => e.input.length
+  let cols := df.cols.map (fun c => s!" {hex c.name} {domNum c.dom} {c.states.length}")
+  pure (s!"ok S {syms.length}" ++ String.join parts ++
+    s!" P {ssetCategories syms} {nvars} {df.classes.length} C {df.cols.length}" ++ String.join cols)
+
+def answerVar2 (main : List String) (dict : Dict) : String :=
+  match main with
+  | ["csv", delim, hdr, trim, keep, oidx, filt, typing, _via, bytes] =>
+    match makeParams delim hdr trim keep oidx, makeHook filt, unhex bytes with
+    | some p, some f, some b =>
+      let p := { p with hook := f }
+      let ms := missing dict (csvCells p (splitLines b))
+      if !ms.isEmpty then needStr ms
+      else
+        let r : M String := do
+          let df ← readCsv {} (oracle dict) p b
+          let syms ← setupSymbols {} (typing == "1") df.cols
+          symsStr df syms
+        match r with
+        | .ok s => s
+        | .error e => errStr e
+    | _, _, _ => "bad-op"
+  | "xrff" :: filt :: typing :: docToks =>
+    match makeHook filt, parseDoc docToks with
+    | some f, some doc =>
+      let ms := missing dict (docCells f doc)
+      if !ms.isEmpty then needStr ms
+      else
+        let r : M String := do
+          let (df, _) ← readXrffH {} (oracle dict) f doc
+          let syms ← setupSymbols {} (typing == "1") df.cols
+          symsStr df syms
+        match r with
+        | .ok s => s
+        | .error e => errStr e
+    | _, _ => "bad-op"
+  | _ => "bad-op"
+
 def answer (line : String) : String :=
   let toks := (line.trimAscii.toString.splitOn " ").filter (· != "")
   let (main, dtoks) := splitDict toks
@@ -250,15 +373,19 @@ def answer (line : String) : String :=
   | some dict =>
     match main with
     | "csv" :: rest => answerCsv {} rest dict
+    | "csv2" :: rest => answerCsv {} rest dict
     | "xrff" :: rest => answerXrff {} rest dict
+    | "xrff2" :: rest => answerXrff {} rest dict
     | "old" :: "csv" :: rest => answerCsv { guards := false } rest dict
     | "old" :: "xrff" :: rest => answerXrff { guards := false } rest dict
+    | "file" :: rest => answerFile {} rest dict
     | "var" :: rest => answerVar rest dict
+    | "var2" :: rest => answerVar2 rest dict
     | ["parse", delim, trim, keep, bytes] =>
       match delim.toNat?, unhex bytes with
       | some d, some b =>
         recsStr (records { delim := Char.ofNat d, trimWs := trim == "1", keepQuotes := keep == "1" }
-          (fun _ => true) (splitLines b))
+          some (splitLines b))
       | _, _ => "bad-op"
     | ["sniff", bytes] =>
       match unhex bytes with
